@@ -32,7 +32,7 @@ func c12Interesting(nodes []*hx.N) bool {
 // probes appends a read of every variable a program may have touched.
 func probes() []*hx.N {
 	var out []*hx.N
-	for _, v := range []string{"v1", "v2", "v3", "n", "s", "c1", "c2", "i", "j", "it"} {
+	for _, v := range []string{"v1", "v2", "v3", "n", "s", "c1", "c2", "i", "j", "it", "my-var", "ok?", "forloop"} {
 		out = append(out, hx.Text("|"), hx.Obj(hx.Var(v)))
 	}
 	out = append(out, hx.Text("|"), hx.Obj(hx.Prop(hx.Var("forloop"), "index")), hx.Text("|"), hx.Obj(hx.Flt(hx.Var("a"), "join", hx.LStr(","))))
